@@ -37,8 +37,8 @@ type Spec struct {
 	MovableNodes []int         // CPU nodes whose memory is movable-only
 	DefaultMemKB int64
 	Extras       []Extra
-	ClusterCores int   // cores per cluster (0: every core its own cluster id)
-	L2PerCluster bool  // L2 shared by the cluster instead of the core
+	ClusterCores int    // cores per cluster (0: every core its own cluster id)
+	L2PerCluster bool   // L2 shared by the cluster instead of the core
 	L3           string // "die" (default), "package", "node", "none"
 	NoCaches     bool
 	ECores       []int // CPUs (all threads) that are E-cores; rest P-cores; nil = no hybrid files
@@ -52,9 +52,9 @@ type Spec struct {
 // CPU is the reference description of one CPU.
 type CPU struct {
 	ID, Pkg, Die, Node, Core, Cluster int
-	Threads                          []int
-	Online, Isolated, ECore          bool
-	Caches                           []Cache // index order
+	Threads                           []int
+	Online, Isolated, ECore           bool
+	Caches                            []Cache // index order
 }
 
 // Cache is the reference description of one cache of one CPU.
